@@ -89,8 +89,10 @@ struct World {
     pair: SeqPair,
     vfs: Arc<Vfs>,
     server: Server<Arc<Vfs>>,
+    /// one ScriptedFs instance per mount (own root entry), keyed "<backend id>#<n>"; logs carry the backend id
     bes: BTreeMap<String, Be>,
-    /// canonical path -> (backend, index, path as given, mapping)
+    ords: BTreeMap<String, u64>,
+    /// canonical path -> (instance key, index, path as given)
     mounts: BTreeMap<String, (String, u8, String)>,
     pool: Vec<u64>,
     seg: usize,
@@ -191,13 +193,13 @@ impl World {
         self.server = Server::new(self.vfs.clone());
     }
 
-    fn backend(&mut self, id: &str) -> ScriptedFs {
-        if !self.bes.contains_key(id) {
-            let ord = self.bes.len() as u64 + 1;
-            let fs = ScriptedFs::new(id);
-            self.bes.insert(id.to_string(), Be { fs, ord });
-        }
-        self.bes[id].fs.clone()
+    /// a new instance of backend `id`; returns its key
+    fn backend(&mut self, id: &str) -> String {
+        let n = self.ords.len() as u64 + 1;
+        let ord = *self.ords.entry(id.to_string()).or_insert(n);
+        let key = format!("{id}#{}", self.bes.len());
+        self.bes.insert(key.clone(), Be { fs: ScriptedFs::new(id), ord });
+        key
     }
 
     fn drain_logs(&mut self) -> Vec<Value> {
@@ -281,8 +283,9 @@ impl World {
         let sc = self.scale;
         let map = (m["i"].as_u64().unwrap_or(0) as u32 * sc, m["e"].as_u64().unwrap_or(0) as u32 * sc, m["r"].as_u64().unwrap_or(0) as u32 * sc);
         let some = map.2 != 0;
-        let fs = self.backend(&bid);
-        let ord = self.bes[&bid].ord;
+        let key = self.backend(&bid);
+        let fs = self.bes[&key].fs.clone();
+        let ord = self.bes[&key].ord;
         // what the backend reports for its root: own inode number, owner ids
         let root_ino = step["root"].as_str().map(|s| s.parse::<u64>().unwrap()).unwrap_or(ord * 1000 + 1);
         let ru = step["ruid"].as_u64().unwrap_or(0) as u32 * sc;
@@ -310,7 +313,7 @@ impl World {
             Ok(Ok(idx)) => {
                 ev["ret"] = json!("ok");
                 ev["idx"] = json!(idx);
-                self.mounts.insert(canon(&path), (bid.clone(), idx, path.clone()));
+                self.mounts.insert(canon(&path), (key.clone(), idx, path.clone()));
                 if some {
                     self.maps_seen.push(map);
                     self.any_mount_map = true;
@@ -489,8 +492,9 @@ impl World {
         // re-attach the backends at their recorded indices
         let list: Vec<(String, String, u8, String)> = self.mounts.iter().map(|(c, (b, i, p))| (c.clone(), b.clone(), *i, p.clone())).collect();
         self.drain_logs();
-        for (_c, bid, idx, path) in list {
-            let fs = self.backend(&bid);
+        for (_c, key, idx, path) in list {
+            let fs = self.bes[&key].fs.clone();
+            let bid = fs.id.clone();
             let f3 = fresh.clone();
             let p2 = path.clone();
             let boxed = Box::new(fs);
@@ -508,12 +512,13 @@ impl World {
     /// the prologue that makes the 256-entry table behave like an n-entry one: fillers at /fill/1..255
     /// (indices 1..255), then /fill/1../fill/(n-1) are unmounted: next_super = 0, indices n..255 occupied
     fn do_prefill(&mut self, n: u64) {
-        let fs = self.backend("filler");
+        let fkey = self.backend("filler");
+        let fs = self.bes[&fkey].fs.clone();
         *fs.root.lock().unwrap() = (mkentry(1, 0, 0, libc::S_IFDIR | 0o755), MAX_INO);
         for i in 1..=255u64 {
             let idx = self.vfs.mount(Box::new(fs.clone()), &format!("/fill/{i}")).expect("prefill mount");
             assert_eq!(idx as u64, i, "prefill index");
-            self.mounts.insert(format!("/fill/{i}"), ("filler".into(), idx, format!("/fill/{i}")));
+            self.mounts.insert(format!("/fill/{i}"), (fkey.clone(), idx, format!("/fill/{i}")));
         }
         for i in 1..n {
             self.vfs.umount(&format!("/fill/{i}")).expect("prefill umount");
@@ -784,7 +789,8 @@ impl World {
         let mut bytes = self.header(opcode, nodeid, cuid, cgid, bodyb.len() + tail.len());
         bytes.extend_from_slice(&bodyb);
         bytes.extend_from_slice(&tail);
-        let mut req = json!({"e": "Req", "k": self.k, "op": op, "ino": inoj(nodeid), "ctx": {"uid": idj(cuid), "gid": idj(cgid)}, "args": args,
+        let kk: i64 = self.k as i64;
+        let mut req = json!({"e": "Req", "k": kk, "op": op, "ino": inoj(nodeid), "ctx": {"uid": idj(cuid), "gid": idj(cgid)}, "args": args,
             "safe_name": !name.contains('/') && (op == "lookup" || (name != "." && name != ".."))});
         if two {
             req["ino2"] = inoj(nodeid2);
@@ -914,7 +920,9 @@ impl World {
                 // getattr of the root of the mount: through node 1 for a root mount, else by its number
                 let t = if node == 1 { json!({"t": "root"}) } else { json!({"t": "mroot_idx", "idx": idx}) };
                 self.do_req(&json!({"rop": "getattr", "seed": seed(), "t": t, "fail": false, "cuid": 1, "cgid": 1, "buid": 0, "bgid": 0, "pred": {"uid": o["ga"], "ctx": o["cx"]}}));
-                if node != 1 {
+                // readdirplus of the parent pseudo directory (node 1 is served by the backend when "/" is mounted)
+                let root_mounted = list.iter().any(|x| x["node"].as_u64() == Some(1));
+                if node != 1 && !(o["par"].as_u64() == Some(1) && root_mounted) {
                     self.do_req(&json!({"rop": "readdirplus", "seed": seed(), "t": {"t": "ino", "idx": 0, "lown": o["par"]}, "fail": false, "cuid": 1, "cgid": 1,
                         "pred": {"uid": o["rp"], "name": o["name"]}}));
                 }
@@ -945,6 +953,7 @@ impl World {
         self.maps_seen.clear();
         self.any_mount_map = false;
         self.bes.clear();
+        self.ords.clear();
         self.scale = sc["scale"].as_u64().unwrap_or(1) as u32;
         let s = self.scale;
         let g = &sc["g"];
@@ -965,17 +974,30 @@ impl World {
         let autoprobe = sc["autoprobe"].as_u64().unwrap_or(0) as usize;
         let paths: Vec<String> = sc["paths"].as_array().map(|a| a.iter().map(|x| x.as_str().unwrap().to_string()).collect()).unwrap_or_default();
         let steps = sc["steps"].as_array().cloned().unwrap_or_default();
+        // a control run has a "nop" step wherever one of its persist runs has the save/restore: same step
+        // numbers (seeds of the probe batteries), same numbering `k` of the operations
         for (i, st) in steps.iter().enumerate() {
             match st["op"].as_str().unwrap_or("") {
                 "mount" => self.do_mount(st),
                 "umount" => self.do_umount(st),
                 "init" => self.do_init(st),
                 "saverestore" => self.do_saverestore(st),
+                "nop" => {}
                 "req" => self.do_req(st),
                 x => panic!("unknown step {x}"),
             }
             if autoprobe > 0 && st["op"] != "req" {
-                let obs = if st["nopred"].as_bool().unwrap_or(false) { Value::Null } else { st["obs"].clone() };
+                // "nopred": the same requests, without the model's predictions attached
+                let mut obs = st["obs"].clone();
+                if st["nopred"].as_bool().unwrap_or(false) {
+                    if let Some(l) = obs.as_array_mut() {
+                        for o in l.iter_mut() {
+                            for key in ["lk", "ga", "rp", "cx"] {
+                                o.as_object_mut().map(|m| m.remove(key));
+                            }
+                        }
+                    }
+                }
                 self.probe(sc_seed, i, &obs, autoprobe, &paths);
             }
         }
@@ -1096,6 +1118,7 @@ fn main() {
         server: Server::new(vfs.clone()),
         vfs,
         bes: BTreeMap::new(),
+        ords: BTreeMap::new(),
         mounts: BTreeMap::new(),
         pool: Vec::new(),
         seg: 0,
